@@ -342,9 +342,10 @@ def run(ctx):
         marks = []
         data, foreign = make_stream(rng, small=True, marks=marks)
         lies = [m for m in marks if m[0] == "length-lie" and m[2][1] > m[2][0]]
+        overs = [m for m in marks if m[0] == "length-lie" and 0 < m[2][1] < m[2][0]]
         strays = [m for m in marks if m[0] == "stray"]
         stales = [m for m in marks if m[0] == "stale"]
-        if not lies and not strays and not stales:
+        if not lies and not strays and not stales and not overs:
             continue
         probe = doubles.RecordingStream(data, budget=3 * len(data) + 16)
         try:
@@ -354,6 +355,17 @@ def run(ctx):
                 pass
         except BaseException:
             pass
+        for kind, start, (a, d) in overs:
+            # MORE payload bytes present than announced (trailer valid for all of them): the payload read (d bytes) is
+            # answered short by exactly the surplus a - d; a top-up that asks for the full size again would end up
+            # with all a bytes and find the trailer right behind them
+            if a - d >= d:
+                continue
+            qs = [q for q, what, off, req, got, f in probe.log if what == "read" and off == start + 3 and req == d]
+            for q in qs[:1]:
+                for mode in (0, 2):
+                    run_case(ctx, data, {q: ["short", a - d]}, mode, 0, True, "directed")
+                ctx.hit("directed_short_by_surplus")
         for kind, start, (n1, variant) in stales:
             # a read INSIDE F1 fails (short payload read / nothing for the trailer): F1 is given up; X follows
             qs = [q for q, what, off, req, got, f in probe.log if what == "read" and off == start + 3 and req == n1]
